@@ -33,6 +33,11 @@ func (t *TablesServer) Create(ctx context.Context, req *regattapb.CreateTableReq
 	if len(req.Name) > maxTableNameLen || strings.ContainsRune(req.Name, 0) {
 		return nil, status.Errorf(codes.InvalidArgument, "name must be at most %d bytes long and must not contain a NUL byte", maxTableNameLen)
 	}
+	// The catalogue lists the tables with a glob whose wildcard does not match '/': such a table would be
+	// served, but never listed, reconciled after a restart or replicated.
+	if strings.ContainsRune(req.Name, '/') {
+		return nil, status.Errorf(codes.InvalidArgument, "name must not contain '/'")
+	}
 	table, err := t.Tables.CreateTable(req.Name)
 	if err != nil {
 		if errors.Is(err, serrors.ErrTableExists) {
